@@ -153,10 +153,13 @@ def c12(ck):
                "effects inside unquotes, unquote/splice-unquote symbols in non-head position; list/vector/map "
                "constructors) evaluated as template SUBSTITUTION by Def.tla; mode mac: every macro-call program of "
                "<= MaxSize nodes over 7 user macros + cond/or/and/->/->> and the routes c | (macroexpand c) | "
-               "(eval (macroexpand c)); compared: value, effects, generated symbols up to renaming")
+               "(eval (macroexpand c)); mode lib: every program of <= MaxSize nodes over the lisp-defined protocol library "
+               "(defprotocol extend satisfies? find-type), memoize, foldr, reduce-kv, the library's source evaluated by "
+               "Def.tla; compared: value, effects, generated symbols up to renaming")
     q = ck.quick
     for mode, consts in (("qq", {"MaxSize": 4 if q else 5, "SampleSize": 6, "SampleN": 3000 if q else 30000}),
-                         ("mac", {"MaxSize": 3, "SampleSize": 4 if q else 5, "SampleN": 6000 if q else 60000})):
+                         ("mac", {"MaxSize": 3, "SampleSize": 4 if q else 5, "SampleN": 6000 if q else 60000}),
+                         ("lib", {"MaxSize": 3 if q else 4, "SampleSize": 4 if q else 5, "SampleN": 1500 if q else 20000})):
         consts = dict(consts, Mode='"%s"' % mode)
         gen_and_replay(ck, "GenC12", consts, timeout=1500)
         ck.extra.setdefault("bounds", {})[mode] = consts
